@@ -64,6 +64,10 @@ def tok_1_2(ctx, rep, accumulators):
                     accs |= accumulators.get(g.qual, set())
                     g = g.outer
                 names = {x.id for term in _plus_terms(pre) for x in [term] if isinstance(x, ast.Name)}
+                if rel == DIFF:
+                    # the diff parser deliberately keeps only the complete lines of that prefix (the rest is tokenized
+                    # again with the next part): the accumulator may reach the field through a helper / re.sub
+                    names |= {x.id for x in ast.walk(pre) if isinstance(x, ast.Name)}
                 ok = bool(names & accs)
                 rep.ob('TOK-1', rel, f.qual, construct, ok,
                        'prefix argument %s contains no prefix accumulator' % norm(pre))
@@ -231,13 +235,39 @@ def tok_6(ctx, rep):
             updates = [s for s in n.body if isinstance(s, (ast.Assign, ast.AugAssign)) and pos in norm(
                 s.targets[0] if isinstance(s, ast.Assign) else s.target)]
             lastu = updates[-1] if updates else None
-            ok = isinstance(lastu, ast.AugAssign) and isinstance(lastu.op, ast.Add) \
-                and isinstance(lastu.value, ast.Constant) and isinstance(lastu.value.value, int) and lastu.value.value > 0
+            # positions at or after the scan position: the scan position itself and the end of a match anchored at it
+            match_vars = {a.targets[0].id for a in ast.walk(loop) if isinstance(a, ast.Assign) and len(a.targets) == 1
+                          and isinstance(a.targets[0], ast.Name) and isinstance(a.value, ast.Call)
+                          and isinstance(a.value.func, ast.Attribute) and a.value.func.attr == 'match'
+                          and len(a.value.args) == 2 and norm(a.value.args[1]) == pos}
+            forward = {pos}
+            for a in ast.walk(loop):
+                if isinstance(a, ast.Assign) and len(a.targets) == 1 and isinstance(a.targets[0], ast.Name) \
+                        and isinstance(a.value, ast.Call) and isinstance(a.value.func, ast.Attribute) \
+                        and a.value.func.attr == 'end' and not a.value.args and isinstance(a.value.func.value, ast.Name) \
+                        and a.value.func.value.id in match_vars:
+                    others = [b for b in ast.walk(loop) if isinstance(b, ast.Assign) and b is not a
+                              and any(isinstance(t, ast.Name) and t.id == a.targets[0].id for t in b.targets)]
+                    if all(n not in ast.walk(b) and not any(b is x for x in ast.walk(n)) for b in others):
+                        forward.add(a.targets[0].id)
+
+            def positive_const(e):
+                return isinstance(e, ast.Constant) and isinstance(e.value, int) and not isinstance(e.value, bool) and e.value > 0
+            ok = False
+            if isinstance(lastu, ast.AugAssign) and isinstance(lastu.op, ast.Add) and positive_const(lastu.value):
+                ok = True
+            elif isinstance(lastu, ast.Assign) and isinstance(lastu.value, ast.BinOp) and isinstance(lastu.value.op, ast.Add) \
+                    and isinstance(lastu.value.left, ast.Name) and lastu.value.left.id in forward and positive_const(lastu.value.right):
+                ok = True           # pos = <position at or after pos> + k
             rep.ob('TOK-6', TOK, f.qual, 'fallback branch: %s' % head(n), ok,
                    'the error-token branch does not advance %s by a positive constant before continuing' % pos)
             # the error token takes exactly the character at pos
             et = [s for s in n.body if 'ERRORTOKEN' in norm(s)]
-            ok2 = any(('line[%s]' % pos) in norm(s) for s in et)
+            char_exprs = {'line[%s]' % v for v in forward}
+            char_names = {a.targets[0].id for a in ast.walk(loop) if isinstance(a, ast.Assign) and len(a.targets) == 1
+                          and isinstance(a.targets[0], ast.Name) and norm(a.value) in char_exprs}
+            ok2 = any(any(c in norm(s) for c in char_exprs) or
+                      any(isinstance(x, ast.Name) and x.id in char_names for x in ast.walk(s)) for s in et)
             rep.ob('TOK-6', TOK, f.qual, 'fallback token text: %s' % head(et[0]), ok2,
                    'the error token is not the single character at the scan position')
     if not found:
@@ -398,7 +428,8 @@ def tok_7(ctx, rep):
         if isinstance(n, ast.If) and isinstance(n.test, ast.Name):
             for s_ in n.body[:2]:
                 if isinstance(s_, ast.Assign) and isinstance(s_.value, ast.Call) and isinstance(s_.value.func, ast.Attribute) \
-                        and s_.value.func.attr == 'match' and isinstance(s_.value.func.value, ast.Name):
+                        and s_.value.func.attr == 'match' and isinstance(s_.value.func.value, ast.Name) \
+                        and [norm(a) for a in s_.value.args] == ['line'] and endvar is None:
                     endvar = s_.value.func.value.id
     if endvar is None:
         raise AnalysisError('TOK-7: continued-string branch (if <contstr>: <m> = <endprog>.match(line)) not found')
